@@ -833,6 +833,11 @@ class Node:
             self._reconnect_peers()
 
     def _receive_message(self, conn: PeerConnection, msg: _AnyMessageType):
+        origin_host = getattr(msg, "origin_host", None)
+        if isinstance(origin_host, list):
+            # commands without a python class expose a repeated AVP as a list
+            origin_host = origin_host[0] if origin_host else None
+
         if hasattr(msg, "origin_host") and msg.header.is_request:
             # Record who originally sent a request, as this information is lost
             # by the time an answer will go out. Identifiers are chosen by the
@@ -840,7 +845,7 @@ class Node:
             message_id = (f"{conn.ident}:{msg.header.hop_by_hop_identifier}:"
                           f"{msg.header.end_to_end_identifier}")
             self._origin_waiting_answer[message_id] = (
-                msg.origin_host, time.time())
+                origin_host, time.time())
 
         peer = self._find_connection_peer(conn)
         if peer:
@@ -860,8 +865,8 @@ class Node:
         # rfc6733, 5.5.4, check for T flag and reject if already processed
         if (hasattr(msg, "origin_host") and msg.header.is_request and
                 msg.header.is_retransmit and
-                msg.origin_host in self._sent_answers and
-                msg.header.end_to_end_identifier in self._sent_answers[msg.origin_host]):
+                origin_host in self._sent_answers and
+                msg.header.end_to_end_identifier in self._sent_answers[origin_host]):
             self.logger.warning(
                 f"{conn} message is a retransmission of an already handled "
                 f"request, rejecting it")
